@@ -34,6 +34,7 @@ RULE = (
     "close/raise/exhaustion completes every obligated source is closed or exhausted; aclose raises nothing; "
     "tee closes its source exactly when the last child is done. Non-trivial: >=1 async source with a release "
     "obligation and the crash point was reached; distinct = distinct (scenario shape, crash point)."
+    " Extensions of rounds 9-12: callables raising StopAsyncIteration; a tee source is closed when the last child is done and not before, even if it has reported its end; nested chains / re-split tee children from the tool table."
 )
 COMPONENTS = COMPONENTS_BASE
 ASSUMPTIONS = [
